@@ -611,6 +611,21 @@ func parseParam(fds []protoreflect.FieldDescriptor, raw []byte) (param, error) {
 	}
 }
 
+// fieldOf returns the field of m that corresponds to fd. The field descriptors
+// kept in the routing tree are those of the first registration of a method,
+// a second backend for the same service has its own descriptors to which the
+// stored ones are foreign.
+func fieldOf(m protoreflect.Message, fd protoreflect.FieldDescriptor) protoreflect.FieldDescriptor {
+	md := m.Descriptor()
+	if fd.ContainingMessage() == md {
+		return fd
+	}
+	if lfd := md.Fields().ByNumber(fd.Number()); lfd != nil {
+		return lfd
+	}
+	return fd
+}
+
 func isNullValue(fd protoreflect.FieldDescriptor) bool {
 	ed := fd.Enum()
 	return ed != nil && ed.FullName() == "google.protobuf.NullValue"
@@ -622,6 +637,7 @@ func (ps params) set(m proto.Message) error {
 	for _, p := range ps {
 		cur := m.ProtoReflect()
 		for i, fd := range p.fds {
+			fd = fieldOf(cur, fd)
 			if len(p.fds)-1 == i {
 				switch {
 				case fd.IsList():
